@@ -45,7 +45,7 @@ P = 'C09'
 BUDGETS = {'C09': (75, 1200, 40)}
 LEVELS = {'C09': 'exploration'}
 ALLOWED = (ServerError, ProtocolError, SSLVerificationError, NetworkError)
-PROBES = {'C09': ['layer.http', 'layer.web', 'layer.robots', 'layer.ftp', 'layer.crawl', 'robots_redirected_to_other_origin', 'crawl_with_warc', 'crawl_url_rewriting_option', 'crawl_post_data', 'redirect_to_directory_of_same_name', 'crawl_ftp', 'ftp_odd_size_reply', 'ftp_symlinks', 'continue_with_partial_files', 'long_line', 'raw_random', 'truncated', 'odd_location',
+PROBES = {'C09': ['layer.http', 'layer.web', 'layer.robots', 'layer.ftp', 'layer.crawl', 'robots_redirected_to_other_origin', 'crawl_with_warc', 'crawl_restrict_file_names', 'crawl_url_rewriting_option', 'crawl_post_data', 'redirect_to_directory_of_same_name', 'crawl_ftp', 'ftp_odd_size_reply', 'ftp_symlinks', 'continue_with_partial_files', 'long_line', 'raw_random', 'truncated', 'odd_location',
                   'odd_cookie', 'cookie_flood', 'bad_compression', 'ftp_reply_mutated', 'ftp_listing_mutated', 'hostile_html', 'hostile_css', 'hostile_js',
                   'hostile_sitemap', 'hostile_robots', 'real_file_writer', 'per_url_error_seen', 'healthy_fetched_after_hostile', 'reset', 'stall']}
 INFO = {'C09': {
@@ -554,6 +554,10 @@ def layer_crawl(tape, r, tier):
         extra = ['--timeout', '20']
         if tape.chance(1, 2, 'sitemaps'):
             extra.append('--sitemaps')
+        if tape.chance(1, 4, 'crawl.restrict_file_names'):
+            # how URLs become local file names (default file writer): names are dictated by the links the server supplies
+            extra = extra + ['--restrict-file-names=' + tape.choice(('windows', 'windows,lower', 'ascii', 'nocontrol,upper', 'unix,ascii'), 'crawl.rfn.v')]
+            r.probes['crawl_restrict_file_names'] += 1
         # options that rewrite every extracted link (the rewriter runs inside link extraction)
         if tape.chance(1, 4, 'crawl.escaped_fragment'):
             extra.append('--escaped-fragment')
